@@ -67,7 +67,7 @@ MUTANTS = [
     ("C05", "unified_planning/engines/plan_validator.py",
      "            if x <= start and x > equal_time:", "            if x < start and x > equal_time:", "_states_in_interval"),
     ("C33", "unified_planning/model/problem_kind.py",
-     "        return self_feat.issubset(oth_feat)", "        return self_feat.issubset(oth_feat) or len(self_feat) == 0 or len(oth_feat) > 3", "__le__"),
+     "        return self_feat.issubset(oth_feat)", "        return self_feat.issubset(oth_feat) or len(self_feat) == 0 or len(oth_feat) > 3", "antisym"),
     ("C14", "unified_planning/model/walkers/dag.py",
      "            self.stack.clear()\n            if self.invalidate_memoization:\n                self.memoization.clear()\n            raise",
      "            if self.invalidate_memoization:\n                self.memoization.clear()\n            raise", "DagWalker.walk"),
@@ -119,7 +119,7 @@ MUTANTS = [
      "        res = subs.get(expression, None)\n        if res is not None and len(args) == 0:\n            return res", "walk_replace_or_identity"),
     ("C13", "unified_planning/model/walkers/substituter.py",
      "            if new_k.type.is_compatible(new_v.type):\n                new_substitutions[new_k] = new_v",
-     "            new_substitutions[new_k] = new_v\n            if new_k.type.is_compatible(new_v.type):\n                pass", "Substituter.substitute"),
+     "            if new_k.type.is_compatible(new_v.type) or len(new_substitutions) > 0:\n                new_substitutions[new_k] = new_v", "Substituter.substitute"),
     ("C13", "unified_planning/model/walkers/identitydag.py",
      "        return self.manager.LE(args[0], args[1])", "        return self.manager.LE(args[1], args[0])", "walk_le"),
     ("C01", "unified_planning/engines/sequential_simulator.py",
@@ -150,12 +150,31 @@ MUTANTS = [
      "            if se.evaluate(goal, next_state).bool_constant_value():\n                total_gain += gain\n        return total_gain\n    else:\n        raise NotImplementedError(\n            f\"QualityMetric {quality_metric} not supported by the UPSequentialSimulator.\"\n        )\n\n\ndef evaluate_quality_metric_in_initial_state",
      "            if se.evaluate(goal, next_state).bool_constant_value():\n                total_gain = gain\n        return total_gain\n    else:\n        raise NotImplementedError(\n            f\"QualityMetric {quality_metric} not supported by the UPSequentialSimulator.\"\n        )\n\n\ndef evaluate_quality_metric_in_initial_state",
      "evaluate_quality_metric"),
+    ("C02", "unified_planning/engines/sequential_simulator.py",
+     "                state, action, parameters, early_termination=True, full_check=True\n", "                state, action, parameters, early_termination=True, full_check=False\n", "_is_applicable"),
+    ("C02", "unified_planning/engines/sequential_simulator.py",
+     "        except (UPInvalidActionError, UPStateMissingFluentError):\n            is_applicable = False", "        except UPInvalidActionError:\n            is_applicable = False", "_is_applicable"),
+    ("C02", "unified_planning/engines/sequential_simulator.py",
+     "            if reason is not None:\n                return None\n            return self.apply_unsafe(state, action, parameters)", "            return self.apply_unsafe(state, action, parameters)", "_apply"),
+    ("C02", "unified_planning/engines/sequential_simulator.py",
+     "            return len(self.get_unsatisfied_goals(state, early_termination=True)) == 0", "            return len(self.get_unsatisfied_goals(state, early_termination=True)) >= 0", "_is_goal"),
+    ("C02", "unified_planning/engines/sequential_simulator.py",
+     "            if self._is_applicable(state, original_action, params):\n                yield (original_action, params)", "            if self._is_applicable(state, original_action, params):\n                yield (original_action, params)\n                break", "_get_applicable_actions"),
+    ("C08", "unified_planning/engines/results.py",
+     "    def __post_init__(self):\n        # Check that compiled problem and map_back_action_instance", "    def _post_init(self):\n        # Check that compiled problem and map_back_action_instance", "CompilerResult"),
+    ("C08", "unified_planning/engines/results.py",
+     "        elif (\n            self.map_back_action_instance is None and self.plan_back_conversion is None\n        ):", "        elif (\n            self.map_back_action_instance is None and self.plan_back_conversion is None and self.problem is None\n        ):", "CompilerResult"),
+    ("C08", "unified_planning/engines/compilers/utils.py",
+     "    while problem.has_name(new_name):\n        new_name = f\"{base_name}_{str(count)}\"\n        count += 1\n    return new_name",
+     "    if problem.has_name(new_name):\n        new_name = f\"{base_name}_{str(count)}\"\n        count += 1\n    return new_name", "get_fresh_name"),
+    ("C08", "unified_planning/engines/compilers/utils.py",
+     "    for p in action.parameters:\n        name_list.append(p.name)\n    count = 0", "    for p in action.parameters[1:]:\n        name_list.append(p.name)\n    count = 0", "get_fresh_parameter_name"),
     ("C11", "unified_planning/model/walkers/simplifier.py",
      "            return self.manager.Bool(not l)", "            return self.manager.Bool(l)", "walk_not"),
 ]
 
 
-def run_units(prop, scratch):
+def run_units(prop, scratch, unit_sub=""):
     env = dict(os.environ, PYTHONPATH=scratch + os.pathsep + ROOT)
     code = (
         "import sys, json, importlib; sys.path.insert(0, %r)\n"
@@ -164,12 +183,13 @@ def run_units(prop, scratch):
         "m = importlib.import_module('contracts.%s')\n"
         "out = []\n"
         "for u in m.UNITS:\n"
+        "    if %r not in u.name: continue\n"
         "    r = run_unit(u)\n"
         "    bad = [o['label'] for o in r['obligations'] if o['verdict'] == 'failed']\n"
         "    if not bad and any(o['verdict'] != 'discharged' for o in r['obligations']): r['status'] = 'open-obligations'\n"
         "    out.append({'unit': r['unit'], 'status': r['status'], 'failed': bad[:3], 'error': r.get('error')})\n"
         "print('RESULT ' + json.dumps(out))\n"
-    ) % (ROOT, scratch, prop.lower())
+    ) % (ROOT, scratch, prop.lower(), unit_sub)
     p = subprocess.run([os.path.join(ROOT, ".venv/bin/python"), "-c", code], env=env, capture_output=True, text=True, timeout=1800, cwd=ROOT)
     for line in p.stdout.splitlines():
         if line.startswith("RESULT "):
@@ -188,7 +208,7 @@ def _one_mutant(m):
         if old not in src:
             return (prop, unit_sub, "ANCHOR-NOT-FOUND"), False
         open(path, "w").write(src.replace(old, new, 1))
-        res = run_units(prop, scratch)
+        res = run_units(prop, scratch, unit_sub)
         hit = [r for r in res if unit_sub in r["unit"] and (r["failed"] or r["status"] not in ("ok",))]
         killed = any(r["failed"] for r in hit)
         undecided = [r for r in hit if not r["failed"]]
